@@ -249,15 +249,18 @@ class Server(utils.EventEmitter):
         self.attributes.append(attribute)
 
     def add_service(self, service: Service) -> None:
+        # Register the included services that are not registered yet before this
+        # service, so that their attributes do not end up inside this service's group
+        for included_service in service.included_services:
+            if included_service not in self.services:
+                self.add_service(included_service)
+                # TODO: Handle circular service reference
+
         # Add the service attribute to the DB
         self.add_attribute(service)
 
         # Add all included service
         for included_service in service.included_services:
-            # Not registered yet, register the included service first.
-            if included_service not in self.services:
-                self.add_service(included_service)
-                # TODO: Handle circular service reference
             include_declaration = IncludedServiceDeclaration(included_service)
             self.add_attribute(include_declaration)
 
